@@ -431,3 +431,32 @@ def walk_eval(g, N, env, start=None, stop=None, max_steps=300, unsigned=True, co
             return ('end', node, env)
         node = g.nodes[node['succ'][0][0]]
     return ('steps', node, env)
+
+
+def live_defs(g, local_id):
+    """(node, rhs) of every assignment to the local that is still in the (pruned, constant-folded) CFG"""
+    out = []
+    for n in g.live():
+        if n['expr'] is None:
+            continue
+        for ev in expr_events(n['expr'], n):
+            if ev['t'] == 'write' and ir.top_nocast(ev['lhs'])[0] == 'local' and ir.top_nocast(ev['lhs'])[2] == local_id:
+                out.append((n, ev['rhs'] if ev['op'] == '=' else None))
+    return out
+
+
+def resolve_callee(g, call, at_node):
+    """callee of a call; a call through a local function pointer is resolved when exactly one live assignment to that local
+    exists and it dominates the call (dead branches are already pruned from the CFG)"""
+    c = ir.top_nocast(call[1])
+    if c[0] == 'func':
+        return c
+    if c[0] == 'local' and len(c) > 2:
+        defs = live_defs(g, c[2])
+        if len(defs) == 1 and defs[0][1] is not None and g.must_pass(at_node['id'], [defs[0][0]['id']]):
+            r = ir.top_nocast(defs[0][1])
+            while r[0] == 'cond' and ir.top_nocast(r[1])[0] == 'int':
+                r = ir.top_nocast(r[2] if ir.top_nocast(r[1])[1] else r[3])
+            if r[0] == 'func':
+                return r
+    return c
